@@ -39,6 +39,7 @@ type Solver struct {
 	SatN      int
 	UnsatN    int
 	UnknownN  int
+	Rescued   int
 	Errors    int
 	Time      time.Duration
 	LastErr   string
